@@ -19,7 +19,8 @@ EXPLANATION = (
     ' numeric equality score(mirror(p)) == -score(p) follows from R1-R3 by a symmetry argument that is stated, not mechanically '
     'checked. (R6) the verdict (mate / stalemate / draw) that selects the branch is computed from this board and the side to move on '
     "this call (game_ending's inputs), not taken from a stored value. R2 recognises bit-scan loops by evaluating the update term; R6 "
-    'also imports the in-check definition (C06.R1).'
+    'also imports the in-check definition (C06.R1). R5 falls back to summarising every other function of the module when score asks its'
+    ' verdict of something that generates moves.'
 )
 ASSUMPTIONS = [
     "legal material: one king per side, at most 8 pawns-or-promoted pieces plus the initial complement",
